@@ -403,6 +403,14 @@ class Verdict:
             if v["sig"] in seen:
                 continue
             seen.add(v["sig"])
+            shrunk = None
+            if getattr(self, "shrinker", None) and v["case"] and "\n" not in v["case"].strip():
+                try:
+                    shrunk, evals = self.shrinker(v["case"].strip())
+                    if shrunk == v["case"].strip():
+                        shrunk = None
+                except Exception as e:  # the shrinker must never hide a violation
+                    shrunk = None
             h = hashlib.sha256((v["sig"] + v["case"] + v["what"]).encode()).hexdigest()[:12]
             rp = os.path.join("replays", "%s-%s.case" % (self.pid, h))
             with open(os.path.join(VERIF, rp), "w") as f:
@@ -414,7 +422,11 @@ class Verdict:
                             f.write("# also: %s\n" % o["what"])
                 for dl in v["detail"].split("\n"):
                     f.write("# " + dl + "\n")
-                if v["case"]:
+                if shrunk:
+                    f.write("# minimised by delta debugging (same failure signature); the case as generated follows as a comment\n")
+                    f.write("# generated: " + v["case"].strip() + "\n")
+                    f.write(shrunk + "\n")
+                elif v["case"]:
                     f.write(v["case"] + "\n")
             line = "VIOLATION property=%s replay=%s" % (self.pid, rp)
             if not v["concrete"]:
@@ -463,6 +475,54 @@ def write_evidence(ctx, proof, cov, wall, violations, assumptions_extra=()):
     with open(os.path.join(VERIF, "evidence", "%s.json" % pid), "w") as f:
         json.dump(ev, f, indent=1)
     return ev
+
+
+def ddmin_ops(ops, fails, budget=80):
+    """delta debugging over a list of operations: a 1-minimal sublist (order kept) on which fails() still holds;
+    at most `budget` evaluations of fails"""
+    calls = [0]
+
+    def f(x):
+        calls[0] += 1
+        return fails(x)
+    n = 2
+    cur = list(ops)
+    while len(cur) >= 2 and calls[0] < budget:
+        size = max(1, len(cur) // n)
+        chunks = [cur[i:i + size] for i in range(0, len(cur), size)]
+        reduced = False
+        for i in range(len(chunks)):
+            comp = [x for j, c in enumerate(chunks) if j != i for x in c]
+            if comp and calls[0] < budget and f(comp):
+                cur = comp
+                n = max(n - 1, 2)
+                reduced = True
+                break
+        if not reduced:
+            if n >= len(cur):
+                break
+            n = min(len(cur), n * 2)
+    return cur
+
+
+def shrink_line(ctx, impl_exe, model_exe, line, split, join, judge, tag="shrink", budget=60):
+    """minimise a failing case line: `split(line) -> (head, ops)`, `join(head, ops) -> line`,
+    `judge(line, impl_out, model_out) -> signature or None`.  Returns (minimal line, evaluations) - the original line if
+    nothing smaller fails with the same signature."""
+    head, ops = split(line)
+    li, lm, _ = run_pair(ctx, impl_exe, model_exe, [line], tag, timeout=120)
+    sig = judge(line, li[0], lm[0])
+    if sig is None or len(ops) < 2:
+        return line, 0
+    n = [0]
+
+    def fails(sub):
+        n[0] += 1
+        cand = join(head, sub)
+        a, b, _ = run_pair(ctx, impl_exe, model_exe, [cand], tag, timeout=120)
+        return judge(cand, a[0], b[0]) == sig
+    best = ddmin_ops(ops, fails, budget)
+    return join(head, best), n[0]
 
 
 def hexs(b):
